@@ -3,15 +3,16 @@
 import json, subprocess, sys, os
 prop, wt = sys.argv[1].upper(), sys.argv[2]
 tier = sys.argv[3] if len(sys.argv) > 3 else "quick"
+tag = sys.argv[4] if len(sys.argv) > 4 else "seed"
 for i in (1, 2, 3):
     if not os.path.exists(os.path.join(wt, "_out", "patch%d.diff" % i)):
         print(prop, "seed%d" % i, "missing")
         continue
     r = subprocess.run(["/venv/bin/python", os.path.join(os.path.dirname(os.path.abspath(__file__)), "seeded_eval.py"), prop, wt, str(i),
-                        "--keep", "%s-seed%d" % (prop, i), "--tier", tier], capture_output=True, text=True)
+                        "--keep", "%s-%s%d" % (prop, tag, i), "--tier", tier], capture_output=True, text=True)
     try:
         d = json.loads(r.stdout)
-        print("%s seed%d valid=%s detected=%s rc=%s sigs=%s %s" % (prop, i, d.get("valid_seed"), d.get("detected"), d.get("check_rc"),
+        print(("%s " + tag + "%d valid=%s detected=%s rc=%s sigs=%s %s") % (prop, i, d.get("valid_seed"), d.get("detected"), d.get("check_rc"),
                                                                  [s.split(" (in")[0].replace("signature ", "") for s in d.get("signatures", [])[:3]], d.get("harness", [])[:1]))
     except Exception:
         print(prop, "seed%d" % i, "ERROR", (r.stdout + r.stderr)[-500:])
